@@ -59,6 +59,9 @@ CASES = [
     S("s-eodds-min", "equalized_odds_difference(worst_case) uses min", ("        return max(eo.difference(method=method))\n", "        return min(eo.difference(method=method))\n")),
     S("s-eodds-mean-max", "equalized_odds_difference(mean) uses .max()", ("        return eo.difference(method=method).mean()\n", "        return eo.difference(method=method).max()\n")),
     S("s-eodds-agg", "equalized_odds_difference aggregates the ratio in the worst case", ("        return max(eo.difference(method=method))\n", "        return max(eo.ratio(method=method))\n")),
+    S("s-eodds-temp-ratio", "equalized_odds_difference: shared temporary holds the ratios",
+      (EOD, "    eo = _get_eo_frame(y_true, y_pred, sensitive_features, sample_weight)\n    diffs = eo.ratio(method=method)\n\n    if agg == \"worst_case\":\n        return max(diffs)\n"
+       "    else:\n        return diffs.mean()\n")),
     S("s-eodds-branch", "equalized_odds_difference branches on agg == \"mean\"", ("    if agg == \"worst_case\":\n        return max(", "    if agg == \"mean\":\n        return max(")),
     S("s-eodds-args", "equalized_odds_difference: frame built without the sample weights",
       ("    eo = _get_eo_frame(y_true, y_pred, sensitive_features, sample_weight)\n\n    if agg == \"worst_case\":\n        return max(", "    eo = _get_eo_frame(y_true, y_pred, sensitive_features, None)\n\n    if agg == \"worst_case\":\n        return max(")),
